@@ -22,7 +22,7 @@ import (
 	"github.com/osrg/gobgp/v4/internal/verif/vlib"
 )
 
-const c19MaxReserialize = 16 << 20
+const c19MaxReserialize = 1 << 20
 
 func c19Addr4(r *rand.Rand) netip.Addr {
 	var a [4]byte
@@ -238,8 +238,8 @@ func c19Hostile(rec *vlib.Rec, w *gen.C19Watch, r *rand.Rand, idx int) {
 			fields = append(fields, gen.C19Field{Off: 12 + pl, Size: 4}, gen.C19Field{Off: 12 + pl, Size: 4})
 		}
 		in, kind = gen.C19Mutate(r, v, fields)
-		if r.IntN(24) == 0 && len(in) >= 8 { // moderately large length values: Serialize of the accepted value is executed
-			binary.BigEndian.PutUint32(in[4:], uint32(r.IntN(2<<20)))
+		if r.IntN(48) == 0 && len(in) >= 8 { // moderately large length values: Serialize of the accepted value is executed
+			binary.BigEndian.PutUint32(in[4:], uint32(r.IntN(1<<18)))
 			kind += "+biglen"
 		}
 	}
@@ -280,7 +280,7 @@ func c19Hostile(rec *vlib.Rec, w *gen.C19Watch, r *rand.Rand, idx int) {
 		rec.Guard("c19:rtr:post-print", wit, func() { _ = fmt.Sprintf("%v %+v", m, m); _, _ = json.Marshal(m) })
 		if dl := c19DeclLen(m); dl > c19MaxReserialize {
 			// Serialize would allocate the declared length; not a stated refuting event, so only counted
-			rec.Count("rtr_accepted_len_over_16MiB_not_reserialized", 1)
+			rec.Count("rtr_accepted_len_over_1MiB_not_reserialized", 1)
 			continue
 		}
 		var out []byte
